@@ -658,8 +658,9 @@ def _m_is_array(node, kind, tape):
 
 
 def _m_array_size(node, kind, tape):
-    if node['is_array'] is not True:
-        return None
+    # also on scalar elements: pywbem does not tie array_size to is_array
+    # ("array_size is ignored when is_array=False" is about its meaning, the
+    # attribute is stored and listed among the compared attributes)
     a = node['array_size']
     if a is None:
         node['array_size'] = 3
